@@ -1,4 +1,4 @@
 #!/bin/sh
 # harness/c15 shares its code with harness/c14 (two main packages cannot share files):
 # copy everything except mode.go.
-cd "$(dirname "$0")" && for f in gen.go pipe.go asm.go main.go sched.go raw.go child.go hooks/benchproc_export.go hooks/benchstat_history.go; do cp ../c14/$f $f; done
+cd "$(dirname "$0")" && for f in gen.go pipe.go asm.go main.go sched.go raw.go child.go colpos.go hooks/benchproc_export.go hooks/benchstat_history.go; do cp ../c14/$f $f; done
